@@ -370,4 +370,6 @@ func rulesC02(e *Engine, r *Report) {
 	}
 	// ---------------------------------------------------------------- R02.13
 	e.shareRule(r, "C06", "R06.14", "R02.13", "the receiver answers `held validated` only for content it holds: after a restart a parked older version is not entered under the hash of the newer version whose first parts have rewritten the companion (the sender would be told the newer version had arrived and release it)")
+	// ---------------------------------------------------------------- R02.14
+	e.shareRule(r, "C08", "R08.3", "R02.14", "the poll comes after all bytes of THAT version: the tracker hands a file to the validator only when the bytes acknowledged for the version in hand reach its size - a count carried over from an older version of the name makes the new version polled (and, the receiver answering by name, released) while its last part is still in flight")
 }
